@@ -31,6 +31,8 @@ def run(rep, tier, seed, replay):
         if iv == "always":
             rooted.append(k)
         # semantic literals: impl vs the structural specification
+        if P.model[k].get("ok") and P.model[k].get("sem") != i.get("sem"):
+            rep.violation("correspondence", "has_semantic_literals(): the queue-driven search (model of Token::literals)", {"expr": exprs[k]}, impl=i.get("sem"), model=P.model[k].get("sem"))
         if msem[k] in ("0", "1"):
             rep.stats["sem=" + i.get("sem", "?")] += 1
             if i.get("sem") != msem[k]:
